@@ -103,6 +103,13 @@ def gen_archive(rng):
             nm = rng.choice([b'd1\\', b'a b\\c\\', b'?\\']) + nm
         if nm.strip(b'?') and nm not in names and not nm.endswith(b'.') and b'..' not in nm and nm.strip() == nm:
             names.append(nm)
+    if names and rng.random() < 0.3:
+        # two entries whose names differ in letter case only are two entries
+        base = rng.choice(names)
+        for variant in (base.swapcase(), base.upper(), base[:1].swapcase() + base[1:]):
+            if variant != base and variant not in names:
+                names.insert(rng.randint(0, len(names)), variant)
+                break
     for name in names:
         kind = rng.random()
         if kind < 0.15:
